@@ -417,6 +417,13 @@ pub fn make(spec: &Value, rng: &mut Rng) -> Result<Rig, String> {
             let (b, o) = ZeroCrossing::new(r, pf(spec, "sps", 4.0), 0.1);
             rig!(b, [i], [ring_out(o)])
         }
+        "ZeroCrossingClock" => {
+            // with the recovered clock as a second output
+            let (i, r) = ring_in::<Float>(spec, 0, rng);
+            let (mut b, o) = ZeroCrossing::new(r, pf(spec, "sps", 4.0), 0.1);
+            let c = b.out_clock();
+            rig!(b, [i], [ring_out(o), ring_out(c)])
+        }
         "SymbolSync" => {
             let (i, r) = ring_in::<Float>(spec, 0, rng);
             let sps = pf(spec, "sps", 4.0);
